@@ -79,6 +79,22 @@ Templates == << T1, T2, T3, T4, T5, T6 >>
 \* token-index spans <<lo, hi>> of the type regions of each template
 TypeSpans == << {}, {}, {}, {}, U5.spans, U6.spans >>
 
+\* ---- endings: every statement kind as the LAST statement of a file, with and without a closing `;` -- where a rule that
+\* writes at the end of the file (append_text_comment with location `end`) has to find the last token
+EndingStmts == <<
+  "a = 1", "a, b = b, a", "a.b = f()", "local a", "local a = f()", "local a, b = 1", "f()", "f 's'", "f{}", "f[[x]]", "a.b:c()", "a.b:c 's'",
+  "do end", "while a do end", "repeat until a", "repeat until f()", "if a then end", "if a then else end", "for i = 1, 2 do end", "for k in f do end",
+  "function f() end", "function a.b:c() end", "local function f() end", "return", "return a", "return a, b", "return f()", "return function() end", "return {}",
+  "return 'x'", "return [[x]]", "return -a", "return not a", "return a.b", "return a[1]", "return (a)", "return ...", "return nil", "return true", "return 1",
+  "return a .. b", "return a + 1", "return #a", "while a do break end",
+  \* Luau
+  "local a: number", "local a: number = 1", "local a, b: string", "local a: { b: number }", "local a: () -> ()", "local a: T?", "local a: T<U>", "local a: typeof(b)",
+  "return `a{1}`", "return a :: number", "return if a then 1 else 2", "a += 1", "a ..= 's'", "while a do continue end",
+  "type T = number", "type T = { a: number }", "type T = () -> ()", "type T = A | B", "type T = A & B", "type T = A?", "type T = typeof(a)", "type T = 'x'", "type T = true",
+  "type T = { number }", "type T = M.N", "type T = M.N<U>", "type T<A...> = (A...) -> A...", "type T = (...number) -> ...string", "export type T = nil",
+  "local function f(): number end", "local function f<T>(a: T, ...: T): ...T end", "local f = function(): () end" >>
+Endings == [k \in 1..(2 * Len(EndingStmts)) |-> "local z = 1\n" \o EndingStmts[(k + 1) \div 2] \o (IF k % 2 = 0 THEN ";" ELSE "") \o "\n"]
+
 \* ---- trivia kinds
 \* (new kinds are appended: the indices of the first 14 are referred to by recorded replay files)
 Kinds == << " ", "\t", "\n", "\r\n", "  \n\n ", "--c\n", " --c\n", "--[[c]]", "--[=[ ]] ]=]", "--[[c\nd]] ", "", "--KEEP\n", "--[[ KEEP ]]", "--!x\n",
